@@ -1,4 +1,5 @@
 import MxV.Model.Element
+import MxV.Tables.D_names
 import MxV.Props.C03
 /-! # C04 — the attribute interface of each element is exactly the schema's
 Generic laws of the attribute store (`Element.setAttr` models `_set_attributes({key: value})`),
@@ -113,3 +114,5 @@ end C04
 #print axioms C04.missingRequired_nil_iff
 #print axioms C04.serialised_eq_store
 #print axioms C04.normKey_idem
+#print axioms C15.reserved_collisions
+#print axioms C15.attr_names_no_underscore
